@@ -194,6 +194,11 @@ def run(rep):
         t_last[0] = time.time()
     cq = common.coq_check_props(PROP)
     common.proof_coverage(rep, cq)
+    if tier == "thorough" and cq["ok"]:
+        ok, axioms = common.coqchk(PROP)
+        rep.coverage["coqchk"] = {"ok": ok, "context_summary": axioms[:1500]}
+        if not ok:
+            rep.violation("coqchk", {"output": axioms[-3000:]}, "coqchk rejects the compiled development", True)
     if not cq["ok"]:
         rep.violation("proof", {"theorem": cq["failed_theorem"], "log": cq["log"][-3000:]},
                       "proof obligation %s no longer checks" % cq["failed_theorem"], True)
@@ -320,8 +325,8 @@ def run(rep):
 
     lap("matrix")
     # ---------------------------------------------------------------- random scripts
-    n_strict = 1500 if tier == "quick" else 25000
-    n_free = 1200 if tier == "quick" else 20000
+    n_strict = 1500 if tier == "quick" else 20000
+    n_free = 1200 if tier == "quick" else 15000
     corpus = os.path.join(common.VERIF, "corpus", "c09.json")
     strict, free = [], []
     if os.path.exists(corpus):
@@ -357,7 +362,7 @@ def run(rep):
 
     lap("scripts")
     # ---------------------------------------------------------------- Ref differential around const objects
-    n_ref = 2500 if tier == "quick" else 40000
+    n_ref = 2500 if tier == "quick" else 30000
     progs, infos = [], []
     for k in range(n_ref):
         sx, inf = gen_c09.ref_program(rng_for(seed, "c09-ref", k))
